@@ -72,7 +72,7 @@ def run(ck, tier):
     _copy_only(ck, p, byk)
     _span_sources(ck, p)
     # re-basing: shared rule
-    c05._key(c05._Sub(_Only(ck, ("chunk-cache:rebase", "chunk-cache:get:chars", "chunk-cache:put:chars")), "R-C03-rebase", ""), p, byk)
+    c05._key(c05._Sub(_Only(ck, (":rebase", "chunk-cache:get:chars", "chunk-cache:put:chars")), "R-C03-rebase", ""), p, byk)
 
 
 def _arm(f, bb):
